@@ -58,8 +58,8 @@ type Scenario struct {
 const serverName = "dns.example"
 
 var (
-	srcAddrs = []string{"192.0.2.1", "192.0.2.2", "192.0.2.130", "198.51.100.7", "10.1.2.3", "2001:db8:1::1", "2001:db8:1:2::9", "2001:db8:2::1", "fe80::1%eth0", "::ffff:192.0.2.1", "127.0.0.1"}
-	listIPs  = []string{"192.0.2.1", "192.0.2.2", "198.51.100.7", "2001:db8:1::1", "2001:db8:2::1", "fe80::1", "10.1.2.3"}
+	srcAddrs = []string{"192.0.2.1", "192.0.2.2", "192.0.2.130", "198.51.100.7", "10.1.2.3", "2001:db8:1::1", "2001:db8:1:2::9", "2001:db8:2::1", "fe80::1%eth0", "fe80::2%eth1", "fe80::2%eth0", "::ffff:192.0.2.1", "127.0.0.1"}
+	listIPs  = []string{"192.0.2.1", "192.0.2.2", "198.51.100.7", "2001:db8:1::1", "2001:db8:2::1", "fe80::1", "10.1.2.3", "fe80::1%eth0", "fe80::2%eth1"}
 	listNets = []string{"192.0.2.0/24", "192.0.2.128/25", "192.0.2.0/31", "0.0.0.0/0", "10.0.0.0/8", "198.51.100.7/32", "2001:db8:1::/48", "2001:db8:1:2::/64", "::/0", "fe80::/10", "2001:db8:2::1/128"}
 	cids     = []string{"alice", "bob", "kid-1", "x"}
 	hostPats = []string{"blocked.test", "||ads.test^", "*.wild.test", "||x.example^$dnstype=AAAA", "|exact.test^", "sub.blocked.test", "||test2^"}
